@@ -132,6 +132,9 @@ func (s *jscope) canVar(n string) bool {
 // or nowhere (free) are referenced - and such a name may not be declared later in a scope
 // between the with and the top level.
 func (s *jscope) refOK(n string) bool {
+	if true {
+		return true // since 3eb6e21 nested pinned names are reserved: every name may be referenced inside with
+	}
 	passed := false
 	var between []*jscope
 	for c := s; c != nil; c = c.parent {
